@@ -191,59 +191,60 @@ static void drv_ser(jb_t *b)
 #define T_N(n) (n)
 #define T_MAX(n) (1000 + (n))
 #define ADD(K, A0, A1, A2, F) do { vop_t o_ = { K, { A0, A1, A2, 0, 0, F } }; ops[no++] = o_; } while (0)
+/* The operations tried in every state: a literal transcription of OpSetM(s, ml) in spec/StrOps.tla (the trace
+ * specification compares the two sets state by state, so they cannot drift apart unnoticed). */
 static int drv_enum(vop_t *ops, int max)
 {
-    int no = 0, sz = (int)S(size)(&T), p, c, l, f, n;
+    static const int CLEN[NLIT + 1] = { 0, 0, 1, 1, 2, 2, 3, 1 };     /* LitLen: length as a C string */
+#define PLEN(l) ((l) == 0 ? 0 : (l) == 8 ? 3 : CLEN[l])
+    int no = 0, sz = (int)S(size)(&T), p, c, l, f, n, h, ch;
     int room = MAXLEN - sz;
-    static const int huge[] = { T_MAX(0), T_MAX(1), T_MAX(2) };
     (void)max;
     for (f = 0; f < 2; f++) {
-        for (l = 1; l <= NLIT; l++) if (LITLEN[l] - 1 <= MAXLEN) ADD(0, l, 0, 0, f);
-        for (p = 0; p <= sz + 1; p++) {
-            for (c = 0; c <= 2; c++) for (n = 0; n <= 2; n++) if (n <= room) ADD(1, T_N(p), T_N(n), c, f);
-            for (l = 2; l <= NLIT; l += (PROBES ? 1 : 2)) {
-                if ((l == 7 ? 1 : LITLEN[l] - 1) <= room) ADD(4, T_N(p), l, 0, f);
-                if (LITLEN[l] <= room) ADD(3, T_N(p), l, T_N(LITLEN[l]), f);      /* copies the terminator too */
-                if (room >= 1) ADD(3, T_N(p), l, T_N(1), f);
-            }
-            for (l = 0; l <= 8; l += 2) if ((l == 8 ? 3 : l ? LITLEN[l] - 1 : 0) <= room) ADD(7, T_N(p), l, 0, f);
+        for (l = 1; l <= NLIT; l++) if (CLEN[l] <= MAXLEN) ADD(0, l, 0, 0, f);
+        for (p = 0; p <= sz + 1; p++) for (c = 0; c <= 2; c++) if (c <= room) for (ch = 0; ch <= 2; ch++) ADD(1, T_N(p), T_N(c), ch, f);
+        for (n = 0; n < 2; n++) {
+            int pos = n ? sz : 0;
+            if (n && sz == 0) continue;                                 /* {N(0), N(Size)} is one position then */
+            for (h = 0; h <= 3; h++) ADD(1, T_N(pos), T_MAX(h), 1, f);
+            if (sz > 3) ADD(1, T_N(pos), T_MAX(sz), 1, f);
+            if (sz + 1 > 3) ADD(1, T_N(pos), T_MAX(sz + 1), 1, f);
         }
-        for (c = 0; c <= 2; c++) if (room >= 1) ADD(2, T_N(1), c, 0, f);
-        if (room >= 2) { ADD(5, 4, 0, 0, f); ADD(6, 6, T_N(2), 0, f); ADD(8, 5, 0, 0, f); }
-        if (room >= 3) ADD(8, 8, 0, 0, f);
-        ADD(8, 0, 0, 0, f);
+        ADD(1, T_MAX(0), T_N(1), 1, f);
+        if (room >= 1) for (ch = 0; ch <= 2; ch++) ADD(2, T_N(1), ch, 0, f);
+        for (h = 0; h <= 3; h++) ADD(2, T_MAX(h), 1, 0, f);
+        for (p = 0; p <= sz + 1; p++) for (l = 1; l <= NLIT; l++) if (CLEN[l] <= room) ADD(4, T_N(p), l, 0, f);
+        for (l = 1; l <= NLIT; l++) for (p = 0; p <= sz + 1; p++) for (c = 0; c <= 4; c++) if (c <= room && c <= LITLEN[l]) ADD(3, T_N(p), l, T_N(c), f);
+        for (h = 0; h <= 3; h++) ADD(3, T_N(0), 4, T_MAX(h), f);
+        for (l = 1; l <= NLIT; l++) if (CLEN[l] <= room) ADD(5, l, 0, 0, f);
+        for (l = 1; l <= NLIT; l++) for (c = 0; c <= 2; c++) if (c <= room && c <= LITLEN[l]) ADD(6, l, T_N(c), 0, f);
+        for (p = 0; p <= sz + 1; p++) for (l = 0; l <= NLIT + 1; l++) if (PLEN(l) <= room) ADD(7, T_N(p), l, 0, f);
+        for (l = 0; l <= NLIT + 1; l++) if (PLEN(l) <= room) ADD(8, l, 0, 0, f);
         for (n = 0; n <= MAXLEN; n++) { ADD(10, T_N(n), 0, 0, f); ADD(11, T_N(n), 0, 0, f); }
-        for (p = 0; p < 3; p++) { ADD(10, huge[p], 0, 0, f); ADD(11, huge[p], 0, 0, f); }
-        /* huge counts and positions */
-        ADD(1, T_N(0), T_MAX(0), 1, f); ADD(1, T_N(sz), T_MAX(1), 2, f); ADD(1, T_N(0), T_MAX(sz), 1, f); ADD(1, T_N(0), T_MAX(sz + 1), 1, f);
-        ADD(1, T_MAX(0), T_N(1), 1, f); ADD(2, T_MAX(0), 1, 0, f); ADD(2, T_MAX(sz + 1), 1, 0, f);
-        ADD(3, T_N(0), 4, T_MAX(0), f);
-        for (l = 0; l <= 4; l += 2) for (p = 0; p <= sz + 1; p++) {
-            for (n = 0; n <= sz + 1; n++) ADD(14, T_N(p), T_N(n), l, f);
-            ADD(14, T_N(p), T_MAX(0), l, f); ADD(14, T_N(p), T_MAX(1), l, f);
+        for (h = 0; h <= 3; h++) { ADD(10, T_MAX(h), 0, 0, f); ADD(11, T_MAX(h), 0, 0, f); }
+        for (p = 0; p <= sz + 2; p++) {                                  /* sz + 2 stands for the position SIZE_MAX */
+            int pt = p <= sz + 1 ? T_N(p) : T_MAX(0);
+            for (l = 0; l <= 4; l += 2) {
+                for (n = 0; n <= sz + 1; n++) ADD(14, pt, T_N(n), l, f);
+                for (h = 0; h <= 3; h++) ADD(14, pt, T_MAX(h), l, f);
+            }
         }
-        ADD(14, T_MAX(0), T_N(1), 0, f);
     }
-    for (p = 0; p <= sz + 1; p++) {
-        for (n = 0; n <= sz + 1; n++) ADD(9, T_N(p), T_N(n), 0, 0);
-        ADD(9, T_N(p), T_MAX(0), 0, 0); ADD(9, T_N(p), T_MAX(1), 0, 0); ADD(9, T_N(p), T_MAX(sz), 0, 0);
+    for (p = 0; p <= sz + 2; p++) {
+        int pt = p <= sz + 1 ? T_N(p) : T_MAX(0);
+        for (n = 0; n <= sz + 1; n++) ADD(9, pt, T_N(n), 0, 0);
+        for (h = 0; h <= 3; h++) ADD(9, pt, T_MAX(h), 0, 0);
     }
-    ADD(9, T_MAX(0), T_N(1), 0, 0); ADD(9, T_MAX(0), T_MAX(0), 0, 0);
     ADD(12, 0, 0, 0, 0);
-    for (l = 0; l <= NLIT; l++) if ((l ? LITLEN[l] - 1 : 0) <= MAXLEN && l != 7) ADD(13, l, 0, 0, 0);
-    if (MAXLEN >= 3) ADD(13, 8, 0, 0, 0);
-    if (PROBES) {
-        for (p = 0; p <= sz + 1; p++) {
-            ADD(15, T_N(p), 0, 0, 0);
-            for (c = 0; c <= 2; c++) ADD(16, c, T_N(p), 0, 0);
-            for (l = 1; l <= NLIT; l++) ADD(17, l, T_N(p), 0, 0);
-            ADD(18, 0, T_N(p), 0, 0); ADD(18, 4, T_N(p), 0, 0); ADD(18, 8, T_N(p), 0, 0);
-        }
-        ADD(15, T_MAX(0), 0, 0, 0); ADD(16, 1, T_MAX(0), 0, 0); ADD(17, 2, T_MAX(1), 0, 0);
-        for (l = 1; l <= NLIT; l++) ADD(19, l, 0, 0, 0);
-        ADD(20, 0, 0, 0, 0); ADD(20, 4, 0, 0, 0); ADD(20, 6, 0, 0, 0); ADD(20, 8, 0, 0, 0);
-        ADD(21, 0, 0, 0, 0);
-    }
+    for (l = 0; l <= NLIT + 1; l++) if (PLEN(l) <= MAXLEN) ADD(13, l, 0, 0, 0);
+    for (p = 0; p <= sz + 1; p++) ADD(15, T_N(p), 0, 0, 0);
+    for (h = 0; h <= 3; h++) ADD(15, T_MAX(h), 0, 0, 0);
+    for (c = 0; c <= 2; c++) { for (p = 0; p <= sz + 1; p++) ADD(16, c, T_N(p), 0, 0); for (h = 0; h <= 3; h++) ADD(16, c, T_MAX(h), 0, 0); }
+    for (l = 1; l <= NLIT; l++) { for (p = 0; p <= sz + 1; p++) ADD(17, l, T_N(p), 0, 0); for (h = 0; h <= 3; h++) ADD(17, l, T_MAX(h), 0, 0); }
+    for (p = 0; p <= sz + 1; p++) { ADD(18, 0, T_N(p), 0, 0); ADD(18, 4, T_N(p), 0, 0); ADD(18, 8, T_N(p), 0, 0); }
+    for (l = 1; l <= NLIT; l++) ADD(19, l, 0, 0, 0);
+    ADD(20, 0, 0, 0, 0); ADD(20, 4, 0, 0, 0); ADD(20, 6, 0, 0, 0); ADD(20, 8, 0, 0, 0);
+    ADD(21, 0, 0, 0, 0);
     return no;
 }
 static int drv_random(unsigned long (*rnd)(void), vop_t *op)
